@@ -5,7 +5,7 @@
 // QXmppOutgoingClientPrivate and the file-local managers are visible) from an ARBITRARY private state satisfying
 //   INV  ==  tlsRequired && !encrypted  =>  listener in {client itself, StarttlsManager}  &&  !isAuthenticated
 // under one event of the remote end.  Every step asserts, at the socket (c04_models.c: vp_c04_send), that nothing classified
-// AUTH / BIND / STANZA / SM-REQUEST is written while TLS is required and the link is not encrypted, and afterwards INV again,
+// AUTH / BIND / STANZA / SM-RESUME is written while TLS is required and the link is not encrypted, and afterwards INV again,
 // "no session opened", and the give-up rule.
 //
 // Environment (see SPEC['assumptions']): the client and its private object live in typed, unconstructed storage and are built field
@@ -43,7 +43,7 @@ using namespace QXmpp;
 using namespace QXmpp::Private;
 
 // classification of what reaches the socket
-enum Tag { T_NONE = 0, T_STREAM_OPEN = 1, T_STARTTLS = 2, T_AUTH = 3, T_BIND = 4, T_STANZA = 5, T_SM_REQUEST = 6, T_SM_ACK = 7, T_CSI = 8, T_NONZA = 9 };
+enum Tag { T_NONE = 0, T_STREAM_OPEN = 1, T_STARTTLS = 2, T_AUTH = 3, T_BIND = 4, T_STANZA = 5, T_SM_RESUME = 6 /* carries the session-resumption token */, T_SM_ACK = 7, T_CSI = 8, T_NONZA = 9, T_SM_ENABLE = 10 };
 #define VP_SENT_CAP 4
 
 extern "C" {
@@ -107,7 +107,7 @@ void FastTokenManager::onSasl2Success(const Sasl2::Success &) { }
 template<typename T> union VpTyped { T v; VpTyped() { } ~VpTyped() { } T *p() { return &v; } T *operator->() { return &v; } };
 
 // instance configuration bits (cdefs VP_CFG): structural choices are compile-time constants, values stay symbolic
-enum { CFG_SSL_LOCAL = 1, CFG_STREAM_ID = 2, CFG_STREAM_FROM = 4, CFG_STREAM_VERSION = 8, CFG_STREAM_SYM = 16 /* id/from/version: 0..2 units each, emptiness symbolic */, CFG_TLS_SHIFT = 5, CFG_S2_SHIFT = 7,
+enum { CFG_SSL_LOCAL = 1, CFG_VERSION_CASE = 2 /* stored stream version: empty / non-empty by bit 8 (else symbolic) */, CFG_STREAM_VERSION = 8, CFG_TLS_SHIFT = 5, CFG_S2_SHIFT = 7,
        CFG_PRE_STARTTLS = 512 /* pre-state: STARTTLS requested, StarttlsManager listens (reached through a real features step) */,
        CFG_EL_SHIFT = 10 /* event-specific case bits */ };
 
@@ -153,10 +153,10 @@ struct Fx {
         d->nextServerAddressIndex = 0;
         d->nextAddressState = QXmppOutgoingClientPrivate::Current;
         // --- stream information: arbitrary (each string present or not by case split)
-        bool sym = (vp_c04_cfg() & CFG_STREAM_SYM) != 0;
-        new (&d->streamId) QString(sym ? vpSymString(2) : (vp_c04_cfg() & CFG_STREAM_ID) ? vpSymStringNonEmpty(2) : QString());
-        new (&d->streamFrom) QString(sym ? vpSymString(2) : (vp_c04_cfg() & CFG_STREAM_FROM) ? vpSymStringNonEmpty(2) : QString());
-        new (&d->streamVersion) QString(sym ? vpSymString(2) : (vp_c04_cfg() & CFG_STREAM_VERSION) ? vpSymStringNonEmpty(2) : QString());
+        // id / from: 0..2 units (emptiness symbolic); version: the same, or decided by the case split (it steers handleStream)
+        new (&d->streamId) QString(vpSymString(2));
+        new (&d->streamFrom) QString(vpSymString(2));
+        new (&d->streamVersion) QString(!(vp_c04_cfg() & CFG_VERSION_CASE) ? vpSymString(2) : (vp_c04_cfg() & CFG_STREAM_VERSION) ? vpSymStringNonEmpty(2) : QString());
         new (&d->redirect) std::optional<StreamErrorElement::SeeOtherHost>();
         // --- authentication & session: INV => not authenticated; the rest arbitrary
         d->isAuthenticated = false;
@@ -199,14 +199,7 @@ struct Fx {
     // what must hold after every step that starts in a state with TLS required and the link not encrypted
     void checkPost()
     {
-        // (the socket model asserts at every write that nothing classified AUTH/BIND/STANZA/SM-REQUEST leaves before encryption)
-        for (unsigned i = 0; i < VP_SENT_CAP; i++) {
-            if (i < vp_c04_sent_n()) {
-                unsigned t = vp_c04_sent_tag(i);
-                vp_assert(vp_c04_encrypted() || (t != T_AUTH && t != T_BIND && t != T_STANZA && t != T_SM_REQUEST),
-                          "C04 nothing classified credential/authentication/bind/stanza was handed to the socket before encryption");
-            }
-        }
+        // (the socket model asserts AT EVERY WRITE that nothing classified AUTH / BIND / STANZA / SM-RESUME leaves before encryption)
         vp_assert(vp_c04_encrypted() || ((listenerIsClient() || listenerIsStarttls()) && !d->isAuthenticated),
                   "C04 invariant: while TLS is required and the link is not encrypted only the client itself or the STARTTLS step listens, and the client is not authenticated");
         vp_assert(vp_c04_encrypted() || vp_c04_sig_connected() == 0, "C04 no session is opened on a link that is not encrypted");
